@@ -17,6 +17,7 @@ import (
 	"testing"
 	"time"
 
+	"github.com/grailbio/bigslice/exec"
 	"github.com/grailbio/bigslice/zzverif/progen"
 	"github.com/grailbio/bigslice/zzverif/runner"
 	"github.com/grailbio/bigslice/zzverif/vgen"
@@ -629,6 +630,197 @@ func TestVerifC05SharedViews(t *testing.T) {
 						rec.Violation(tShared, "placement:shared", err.Error(), c)
 						t.Errorf("%+v: %v", c, err)
 					}
+				}
+			}
+		}
+	}
+	rec.Exhaustive = true
+}
+
+const tSharedResult = "TestVerifC05SharedResult"
+
+type sharedResultCase struct {
+	NShard int `json:"nshard"`
+	A      int `json:"a"`
+	B      int `json:"b"`
+}
+
+// shuffling consumer kinds of progen.SharedKinds (those that redistribute their input)
+func shufflingKind(k int) bool {
+	switch progen.SharedKinds[k] {
+	case "self", "map", "filter":
+		return false
+	}
+	return true
+}
+
+// keyed consumer kinds whose output shard is the default function of the first key column
+func keyedKind(k, nshard int) bool {
+	switch progen.SharedKinds[k] {
+	case "reshard1", "reshard2", "reshard3":
+		// Reshard to the number of shards that its argument already has returns the argument itself
+		return progen.SharedKinds[k] != fmt.Sprintf("reshard%d", nshard)
+	case "reshuffle", "reduce", "fold":
+		return true
+	}
+	return false
+}
+
+// sharedResultRun runs Cogroup(W(A(r)), W(B(r))) over a reused Result r on the bigmachine executor and
+// checks rows and observers; it returns the key->shard maps seen by the two observers (nil for
+// consumers that are not keyed by the first column alone) with their shard counts.
+func sharedResultRun(sess *runner.Session, c sharedResultCase) (maps [2]map[string]int, shards [2]int, err error) {
+	defer func() {
+		if r := recover(); r != nil {
+			_, stack := vt.PanicSig(r)
+			err = fmt.Errorf("panic: %v\n%s", r, stack)
+		}
+	}()
+	main, arg := progen.EnumSharedArgObserved(c.NShard, 120, c.A, c.B)
+	ctx := context.Background()
+	arg.RunID = runner.NewRunID()
+	defer progen.DropEnv(arg.RunID)
+	aref, e := progen.Eval(arg, nil)
+	if e != nil {
+		return maps, shards, fmt.Errorf("harness: %v", e)
+	}
+	var argRes *exec.Result
+	var runErr error
+	var rows []progen.Row
+	main.RunID = runner.NewRunID()
+	defer progen.DropEnv(main.RunID)
+	ok := runner.WithTimeout(180*time.Second, func() {
+		argRes, runErr = sess.Run(ctx, arg)
+		if runErr != nil {
+			return
+		}
+		var res *exec.Result
+		res, runErr = sess.Run(ctx, main, argRes)
+		if runErr != nil {
+			return
+		}
+		rows, runErr = runner.Scan(ctx, res, main.Nodes[main.Root()].Schema)
+		res.Discard(ctx)
+		argRes.Discard(ctx)
+	})
+	if !ok {
+		return maps, shards, fmt.Errorf("run did not finish within 180s")
+	}
+	if runErr != nil {
+		return maps, shards, fmt.Errorf("run failed: %v", runErr)
+	}
+	ref, e := progen.Eval(main, []*progen.Stage{aref.Stages[arg.Root()]})
+	if e != nil {
+		return maps, shards, fmt.Errorf("harness: %v", e)
+	}
+	if e := progen.CheckRows(ref.Stages[main.Root()], rows); e != nil {
+		return maps, shards, fmt.Errorf("rows of Cogroup(%s(r), %s(r)): %v", progen.SharedKinds[c.A], progen.SharedKinds[c.B], e)
+	}
+	env := progen.EnvOf(main.RunID)
+	if e := progen.CheckObserversOpt(main, ref, env, rows, false); e != nil {
+		return maps, shards, fmt.Errorf("Cogroup(%s(r), %s(r)): %v", progen.SharedKinds[c.A], progen.SharedKinds[c.B], e)
+	}
+	// observers in node order: the first one follows A, the second one B
+	k := 0
+	for id := range main.Nodes {
+		if main.Nodes[id].Op != "writerfunc" || k > 1 {
+			continue
+		}
+		kind := c.A
+		if k == 1 {
+			kind = c.B
+		}
+		if keyedKind(kind, c.NShard) {
+			m := map[string]int{}
+			seen := map[int]bool{}
+			for _, st := range env.StreamsOf(id) {
+				if st.Ends == 0 || seen[st.Shard] {
+					continue
+				}
+				seen[st.Shard] = true
+				for _, r := range st.Rows {
+					m[progen.RowKey(r[:1])] = st.Shard
+				}
+			}
+			maps[k] = m
+			shards[k] = main.Nodes[id].Shards
+		}
+		k++
+	}
+	return maps, shards, nil
+}
+
+// TestVerifC05SharedResult: one Func redistributes one reused Result in two different ways (the
+// re-shuffle tasks that the compiler inserts for a Result are per consumer); on the bigmachine
+// executor, where tasks are addressed by name, every consumer must still get the placement it asked for.
+func TestVerifC05SharedResult(t *testing.T) {
+	if os.Getenv("VERIF_C05_CELLS") != "" {
+		t.Skip()
+	}
+	rec := vt.New("C05", "shared-result-redistributed-twice",
+		fmt.Sprintf("complete enumeration of Cogroup(W(A(r)), W(B(r))) over one reused Result r (argument of the Func; 120 rows, 7 keys) for every ordered pair of redistributing consumer kinds of %v x shard counts {2,3}, on the bigmachine test system (2 procs per machine, parallelism 4); W = WriterFunc observer; oracle: scanned rows equal the reference; each observer sees every shard completely, equal keys in one shard, Repartition rows in the shard their function names; the key->shard map of every consumer keyed by the first column equals that of every other such consumer with the same shard count, in this and all other programs of the run; non-trivial = A != B; distinct by case", progen.SharedKinds))
+	sess := runner.Start(runner.Config{Exec: "bigmachine", Parallelism: 4, Machineprocs: 2})
+	defer sess.Close()
+	refs := map[int]map[string]int{}
+	run := func(c sharedResultCase) error {
+		maps, shards, err := sharedResultRun(sess, c)
+		if err != nil {
+			return err
+		}
+		for k, m := range maps {
+			if m == nil {
+				continue
+			}
+			kind := progen.SharedKinds[c.A]
+			if k == 1 {
+				kind = progen.SharedKinds[c.B]
+			}
+			if ref, ok := refs[shards[k]]; ok {
+				if err := sameMap(ref, m, fmt.Sprintf("by %s(r) in Cogroup(%s(r), %s(r))", kind, progen.SharedKinds[c.A], progen.SharedKinds[c.B])); err != nil {
+					return err
+				}
+			} else {
+				refs[shards[k]] = m
+			}
+		}
+		return nil
+	}
+	docs, only := vt.Replays(tSharedResult)
+	for _, d := range docs {
+		var c sharedResultCase
+		if err := json.Unmarshal(d.Case, &c); err != nil {
+			t.Fatal(err)
+		}
+		rec.Case(true, vt.Hash(string(d.Case)), "replay")
+		if err := run(c); err != nil {
+			rec.Violation(tSharedResult, "placement:shared-result", err.Error(), c)
+			t.Errorf("replay: %v", err)
+		}
+	}
+	if only || t.Failed() {
+		return
+	}
+	idx := 0
+	reported := false
+	for _, nshard := range []int{2, 3} {
+		for a := range progen.SharedKinds {
+			for b := range progen.SharedKinds {
+				if !shufflingKind(a) || !shufflingKind(b) {
+					continue
+				}
+				idx++
+				if !vt.Mine(idx) {
+					continue
+				}
+				c := sharedResultCase{nshard, a, b}
+				rec.Case(a != b, vt.Hash("sharedresult", nshard, a, b), "pair:"+progen.SharedKinds[a]+"+"+progen.SharedKinds[b])
+				if a != b && rec.WantSample("sharedresult") {
+					rec.Sample("sharedresult", map[string]interface{}{"case": c, "a": progen.SharedKinds[a], "b": progen.SharedKinds[b]})
+				}
+				if err := run(c); err != nil && !reported {
+					reported = true
+					rec.Violation(tSharedResult, "placement:shared-result", err.Error(), c)
+					t.Errorf("%+v: %v", c, err)
 				}
 			}
 		}
